@@ -63,6 +63,7 @@ def _run_getter(chk, body, recv_names):
     return ex, results, run
 
 
+@common.part
 def obligations(chk, prop, which=('verdict', 'summarize', 'forward', 'tee', 'or')):
     prog = chk.prog
     t = prog.tables
